@@ -18,8 +18,9 @@ CLAIMS = {
             "and return objects sharing no Point2D with their arguments; JordanCurve.split preserves the region "
             "(C15). Getters documented as 'not copy' are out of scope.",
             "DESIGN.md section 2, C08"),
-    "C09": ("symbolic extraction of the point maps as linear forms + structural coverage rules (every control point "
-            "exactly once, every boundary curve) + cache-coherence abstract interpretation",
+    "C09": ("symbolic extraction of the point maps as linear forms + abstract interpretation of the curve- and "
+            "shape-level transformations on recording stand-in points (every control point exactly once, every "
+            "boundary curve, in-place aliasing of the angle) + cache-coherence abstract interpretation",
             "Decides that Point2D.move/scale/rotate are exactly the documented affine maps (no read-after-write "
             "hazard), that curve/shape transformations apply them once to every distinct control point of every "
             "boundary with the arguments forwarded, that the degrees flag applies pi/180 iff set, that they return "
@@ -30,11 +31,13 @@ CLAIMS = {
             "inverse-transformation round trip is not decided.",
             "DESIGN.md section 2, C09"),
     "C10": ("path-sensitive abstract interpretation of cache coherence (RESET/FILL/WRITE/CALL transformers over every "
-            "method), memo-table def-use rules, nondeterminism-source and set-iteration rules, effect analysis",
-            "Decides for every history that each lazily cached field is reset after every write to the state it is "
-            "derived from (generic: any new lazy cache is picked up; caches on composite classes must reset their "
-            "sub-objects), that memo tables are keyed completely and never mutated, that no nondeterminism source "
-            "reaches a result, and that queries write nothing but caches and subdivisions.",
+            "method), memo-table def-use rules, nondeterminism-source rules and set-order origin tracking, effect analysis",
+            "Decides for every history that each derived stored value -- lazily cached field, memo kept on an argument, "
+            "value snapshotted at construction -- is reset after every write to the state it is derived from (generic: "
+            "any new one is picked up; caches on composite classes must reset their sub-objects; an incremental update "
+            "is accepted only where the transformation law of the cached quantity verifies it), that memo tables are "
+            "keyed completely and never mutated, that no nondeterminism source reaches a result, and that queries "
+            "write nothing but caches and subdivisions.",
             "Not decided: that an operator takes the same numeric decisions on a subdivided operand as on a fresh one "
             "(in-place split changes the representation). Direct mutation of points/segments obtained from the "
             "documented 'not copy' getters by user code is out of scope.",
@@ -43,8 +46,10 @@ CLAIMS = {
             "single-writer / validate-before-write structural rules",
             "Decides for every crash point that non-mutating operations make no temporary in-place change of operand "
             "state (paired or not), that the representation-only mutators they may reach commit by one final store "
-            "after preparing fresh pieces, that cache fills are single stores, and that in-place transformations "
-            "validate every argument before the first coordinate write.",
+            "after preparing fresh pieces, that cache fills are single stores, that in-place transformations "
+            "validate every argument before the first coordinate write, and (abstract runs over 19 invalid argument "
+            "kinds on the repository's own point and curve methods) that a transformation that raises has written "
+            "no coordinate.",
             "Assumes a single attribute store is atomic; region preservation of split is C15's business; an interrupt "
             "inside a documented in-place mutator (invert, move...) is outside the property.",
             "DESIGN.md section 2, C11"),
@@ -53,15 +58,18 @@ CLAIMS = {
             "Decides the algebraic skeleton for all inputs: every return of every operator method equals its Boolean "
             "specification on every admissible point assignment (incl. De Morgan for composite shapes and the "
             "no-boundary exits), the cores select exactly the pieces outside the closed / inside the open other "
-            "operand with consistent indexing after splitting all curve pairs, every while loop and recursion has a "
-            "termination witness, and operands stay reusable in nested expressions.",
-            "NOT decided (the geometric core): that crossings are found, that pursue_path chains the right pieces, "
-            "numerical robustness. Assumes ShapeFromJordans of the selected pieces denotes the region they bound.",
+            "operand -- classified by a point of the piece itself -- with consistent indexing after splitting all curve "
+            "pairs, pursue_path chains curved pieces by segment index across two crossing points, every while loop "
+            "and recursion has a termination witness, every boundary curve takes part, and operands stay reusable "
+            "in nested expressions.",
+            "NOT decided (the geometric core): that crossings are found, triple points, numerical robustness. "
+            "Assumes ShapeFromJordans of the selected pieces denotes the region they bound.",
             "DESIGN.md section 2, C01"),
     "C02": ("finite-domain decision tables (own interpreter over the AST), quantifier classification, dimension check "
             "of the on-curve test, cache-coherence analysis",
             "Decides the decision table of SimpleShape._contains_point (12 rows), the +-1/2 boundary sentinel and the "
-            "all-segments winding sum, the forall/exists composition over subshapes with the boundary flag forwarded, "
+            "all-segments winding sum, the forall/exists composition over subshapes with the boundary flag forwarded "
+            "(exhaustively over 192 cells per composite method), "
             "the dispatch of `in`, Empty/Whole membership, freshness of the cached orientation, and that the on-curve "
             "test compares a distance with its tolerance.",
             "NOT decided: that the winding number computed for a curved segment equals the geometric one (chord "
@@ -71,7 +79,8 @@ CLAIMS = {
             "quantifier + subset-claim normalisation for the composition rules",
             "Decides SimpleShape.__contains_simple on all 48 rows (5 curve configurations x 4 orientation pairs x "
             "consultable facts), the composition rules over subshapes (kind, collection, direction, complements), "
-            "the singleton guards and kind dispatch, and that every vertex of a curve is tested.",
+            "the singleton guards and kind dispatch, and that every vertex of a curve and a point between every two "
+            "consecutive crossing parameters (end parameters included) is tested.",
             "Generic position assumed (no tangencies / partially coincident boundaries). NOT decided: adequacy of the "
             "vertex + mid-crossing sampling in _contains_jordan; the consequences A|B == A.",
             "DESIGN.md section 2, C03"),
@@ -116,7 +125,8 @@ CLAIMS = {
             "cells, dimension check of the exact solver",
             "Decides the None / () / pairs sentinel discipline of PlanarCurve.__and__ and of its reader, the flag "
             "filter table of JordanCurve.intersection (40 cells) and A & B, the [0,1]^2 range of every returned "
-            "pair (exact line solver over 25 cells + Newton clamp), index and parameter roles, sortedness, and that "
+            "pair (exact line solver over 25 cells + Newton clamp), index and parameter roles (also for segments of "
+            "different degree in both orders), sortedness, and that "
             "the line-line solver uses no tolerance.",
             "NOT decided: completeness of the Newton search for curved pieces, parity of crossings. Only a small named "
             "fraction of the statement.",
@@ -157,21 +167,26 @@ CLAIMS = {
             "the vertices in order with cyclic segments, the documented vertices, counter-clockwise orientation and "
             "closed-form area of square / triangle / 4-gon (three exact sizes decide the degree-2 polynomial), and "
             "that the circle is a closed chain of ndivangle arcs rotated by tau/ndivangle about the centre.",
-            "NOT decided: general regular polygons (numpy trigonometry), the circle band and area convergence.",
+            "The centre may be given as a pair or as an existing point object (not reused for every vertex, not moved); "
+            "general regular polygons are decided symbolically (centre + radius (cos, sin) of k tau/n). "
+            "NOT decided: the circle band and area convergence.",
             "DESIGN.md section 2, C16"),
     "C17": ("abstract interpretation of constructors, vertex enumeration, bounding boxes and the signed length on "
             "stand-in chains and points",
             "Decides the constructor funnel (closed chains only, junctions shared, strings rejected), that vertices "
             "lists every control point object once in order, that boxes are componentwise min/max over all control "
-            "points joined over all parts, and the sign rule of float(curve).",
+            "points joined over all parts, the sign rule of float(curve), and that the area giving the sign sums the "
+            "same per-segment integral over straight and curved pieces.",
             "NOT decided: == of curves built in different ways (numeric). Convex-hull property of Bezier curves assumed.",
             "DESIGN.md section 2, C17"),
     "C18": ("symbolic matrix-product check, abstract runs of the dispatch / containment decision / winding wrap, memo "
             "and cache-coherence rules",
             "Decides the composition order of derivative matrices, the scalar/iterable dispatch of curve(t), key "
             "completeness and immutability of the degree-keyed memo tables, that no per-object derivative or "
-            "evaluation cache can go stale, the box clause, the decision structure of `point in segment`, and the "
-            "wrap of the subtended angle.",
+            "evaluation cache can go stale, the box clause, the decision structure of `point in segment`, the "
+            "wrap of the subtended angle, the basis identities for degrees 0..6, and (numeric abstract run with mutable "
+            "sample points) that the winding number of a curved segment about an off-origin point is the sum of the "
+            "angles its chords subtend.",
             "NOT decided: the Bernstein / Horner algebra, derivative matrices (pynurbs), split re-parametrisation, "
             "projection accuracy -- arithmetic identities outside this family. Only a small named fraction.",
             "DESIGN.md section 2, C18"),
@@ -179,13 +194,14 @@ CLAIMS = {
             "over all list shapes; quantifier rules; truth tables",
             "Decides that directly constructed composites are forall/sum resp. exists/sum over their subshapes, that "
             "the stored order is canonical (24 permutations -> one order, largest area first), the collapse rules of "
-            "DisjointShape (Empty removed first; 0 -> Empty, 1 -> copy, >= 2 -> instance) and the De Morgan complement.",
+            "DisjointShape (Empty removed first; 0 -> Empty, 1 -> copy, >= 2 -> instance), the De Morgan complement, "
+            "and that no value stored when the composite was built survives a change of a subshape.",
             "NOT decided: == with operator-built shapes; ties in the sort key.",
             "DESIGN.md section 2, C19"),
     "C20": ("abstract interpretation of patch_segment / path_jordan / path_shape / plot_shape with stand-in matplotlib "
             "objects; effect analysis",
             "Decides the degree dispatch (LINETO / CURVE3 / CURVE4 with matching vertex counts, other degrees refused), "
-            "the path grammar per boundary curve, the per-component fill / hole decision, one outline and scatter per "
+            "the path grammar per boundary curve for curves mixing degrees in every order, the per-component fill / hole decision, one outline and scatter per "
             "curve coloured by its own orientation, Empty / Whole handling, and that plotting does not modify the shape.",
             "NOT decided: what matplotlib renders.",
             "DESIGN.md section 2, C20"),
